@@ -291,6 +291,65 @@ func concurrentEncoders() int {
 	return int(cnt)
 }
 
+// failingWriter accepts at most `room` bytes in total (possibly in the middle of a Write) and then fails.
+type failingWriter struct {
+	room int
+	got  []byte
+}
+
+func (w *failingWriter) Write(p []byte) (int, error) {
+	if len(p) <= w.room {
+		w.room -= len(p)
+		w.got = append(w.got, p...)
+		return len(p), nil
+	}
+	n := w.room
+	w.got = append(w.got, p[:n]...)
+	w.room = 0
+	return n, io.ErrClosedPipe
+}
+
+// encodeAfterFailure: an encode whose writer fails (peer gone: after 0, 1, 2, 3, ... bytes) is followed by encodes into
+// healthy writers, from the same and from other goroutines: each of those must receive exactly the wire format of its
+// own message - nothing of the message that could not be delivered before.
+func encodeAfterFailure() int {
+	n := 0
+	for _, room := range []int{0, 1, 2, 3, 5, 17, 40} {
+		for round := 0; round < 6; round++ {
+			fw := &failingWriter{room: room}
+			stale := sasl.Response{Result: true, Message: fmt.Sprintf("successfully authenticated %d/%d", room, round)}
+			err := (&stale).Encode(fw)
+			if err == nil && len(lp("OK "+stale.Message)) > room {
+				violate("response-encode:write-error-not-reported", fmt.Sprintf("writer failed after %d bytes, Encode returned nil", room), nil)
+			}
+			fr := &failingWriter{room: room}
+			(&sasl.Request{Login: "victim", Password: "secret-" + fmt.Sprint(round), Service: "smtp", Realm: "r"}).Encode(fr)
+			var wg sync.WaitGroup
+			for g := 0; g < 4; g++ {
+				wg.Add(1)
+				go func(g int) {
+					defer wg.Done()
+					for i := 0; i < 4; i++ {
+						var w bytes.Buffer
+						msg := fmt.Sprintf("authentication failed %d.%d", g, i)
+						if err := (&sasl.Response{Result: false, Message: msg}).Encode(&w); err != nil || !bytes.Equal(w.Bytes(), lp("NO "+msg)) {
+							violate("response-encode:after-failed-write", fmt.Sprintf("after a write that failed at byte %d the next response went out as %q (err=%v)", room, trunc(w.Bytes()), err), nil)
+						}
+						var w2 bytes.Buffer
+						login := fmt.Sprintf("u%d.%d", g, i)
+						if err := (&sasl.Request{Login: login, Password: "pw", Service: "imap", Realm: ""}).Encode(&w2); err != nil || !bytes.Equal(w2.Bytes(), lp(login, "pw", "imap", "")) {
+							violate("request-encode:after-failed-write", fmt.Sprintf("after a write that failed at byte %d the next request went out as %q (err=%v)", room, trunc(w2.Bytes()), err), nil)
+						}
+					}
+				}(g)
+			}
+			wg.Wait()
+			n += 34
+		}
+	}
+	return n
+}
+
 // encoderLaws: round trips and limits at the real boundary lengths, arbitrary bytes.
 func encoderLaws(seed int64) int {
 	rng := rand.New(rand.NewSource(seed))
@@ -471,7 +530,7 @@ func main() {
 	wg.Wait()
 	laws := 0
 	if !*resp {
-		laws = encoderLaws(*seed) + concurrentEncoders()
+		laws = encoderLaws(*seed) + concurrentEncoders() + encodeAfterFailure()
 	}
 	ncorpus := 0
 	if *corpus != "" { // the go-fuzz corpus through the same oracle: decode must never panic, and a decoded message re-encodes
